@@ -5,6 +5,7 @@ import json
 
 from core import Corr, Violation, run_driver
 from extract import pyexpr
+from extract import shape
 
 ID = "C19"
 SRC = "mlinsights/mlmodel/categories_to_integers.py"
@@ -298,6 +299,8 @@ end MlVerif.Gen.C19
        ast.unparse(guards[0].test) if guards else "?", too_many, fit_sorted, drops, schema_sorted,
        pos_expr, next_last, pos_first, name_def, keep, cell_index, missing_leaves, unseen_leaves,
        unseen_raises, write_one)
+    body = body.replace("end MlVerif.Gen.C19\n", shape.lean_defs([("shapeFit", fit), ("shapeBuildSchema", bs),
+                                                                    ("shapeTransform", tr)]) + "\nend MlVerif.Gen.C19\n")
     return {"MlVerif/Gen/C19.lean": body}
 
 
@@ -665,6 +668,9 @@ def oracle(case):
         j = fcols.index(c)
         vals = sorted({cell_py(r[j], fkind[c]) for r in case["fit"]["rows"] if not is_missing(r[j])})
         cats[c] = [v for v in vals if "%s=%s" % (c, v) not in rem]
+    if any(c not in tcols for c in fitted) or any(c not in fcols for c in fitted):
+        return []       # a frame lacking a fitted column (or a `columns` entry absent from the training frame): not a frame
+                        # the statement speaks about
     X = [[cell_py(r[j], tkind[tcols[j]]) for j in range(len(tcols))] for r in case["tr"]["rows"]]
     unseen = [(i, c) for i, r in enumerate(X) for c in fitted
               if not is_missing(r[tcols.index(c)]) and r[tcols.index(c)] not in cats[c]]
@@ -813,6 +819,14 @@ def search(ctx, hints):
         for key, what, obs, req in numeric_oracle(sd):
             v = Violation(K + key, what, {"numeric_seed": sd}, obs, req)
             best.setdefault(v.key, v)
+    # histories: fit, use, fit on another frame, use
+    for t in range(ctx.pick(60, 600)):
+        sd = rng.randrange(1 << 30)
+        evals += 1
+        nontriv.add("history:%d" % sd)
+        for key, what, obs, req in history_oracle(sd):
+            v = Violation(K + key, what, {"history_seed": sd}, obs, req)
+            best.setdefault(v.key, v)
     return list(best.values()), {"evaluations": evals, "distinct_nontrivial": len(nontriv), "samples": samples}
 
 
@@ -855,9 +869,51 @@ def numeric_oracle(seed):
     return bad
 
 
+def history_oracle(seed):
+    """One object fitted, USED (transform), fitted again on another frame (other columns / categories) and used again:
+    the second transform is the one a fresh object fitted on the second frame gives ("after fit, transform gives ...":
+    the last fit decides)."""
+    import random
+    rng = random.Random(seed)
+    a, b = gen_case(rng), gen_case(rng)
+    cfg = dict(b["cfg"], columns=None, remove=None)
+    t = make_transformer(cfg)
+    try:
+        t.fit(build_df(a["fit"]))
+        try:
+            t.transform(build_df(a["tr"]))
+        except Exception:  # noqa: BLE001
+            pass
+        try:
+            t.fit_transform(build_df(a["fit"]))
+        except Exception:  # noqa: BLE001
+            pass
+    except Exception:  # noqa: BLE001
+        return []
+
+    def run(obj):
+        try:
+            obj.fit(build_df(b["fit"]))
+        except Exception as e:  # noqa: BLE001
+            return ("fitE", type(e).__name__)
+        try:
+            r = obj.transform(build_df(b["tr"]))
+        except Exception as e:  # noqa: BLE001
+            return ("trE", type(e).__name__)
+        return ("ok", [str(c) for c in r.columns], [int(i) for i in r.index],
+                [[canon_pass(v) for v in row] for row in r.values.tolist()])
+    got, want = run(t), run(make_transformer(cfg))
+    if got != want:
+        return [("transform:after-refit-differs-from-fresh", "fit; transform; fit on another frame; transform: the second "
+                 "transform is not what a fresh object fitted on the second frame returns", str(got)[:300], str(want)[:300])]
+    return []
+
+
 def replay(ctx, item):
     ctx.shadow(need_cython=False)
     case = item["input"]
+    if "history_seed" in case:
+        return [Violation(K + k, w, case, o, r) for k, w, o, r in history_oracle(case["history_seed"])][:1]
     if "numeric_seed" in case:
         return [Violation(K + k, w, case, o, r) for k, w, o, r in numeric_oracle(case["numeric_seed"])][:1]
     best = {}
